@@ -1,9 +1,210 @@
 /-
 C11 — adding measures and tying notes normalise notation without changing what sounds.
+
+Property theorems over Model/Durations.lean (estimator, split search) and Model/Measures.lean
+(add_measures, tie_notes) and the regenerated duration tables.  Helper lemmas are in Proofs/C11*.lean.
 -/
-import PartituraModel.Model.Measures
+import PartituraModel.Proofs.C11Dur
+import PartituraModel.Proofs.C11Split
+import PartituraModel.Proofs.C11Tie
+import PartituraModel.Proofs.C11Meas
 
 namespace C11
 open Model Model.Dur Model.Meas Gen
+
+/-! ### the duration tables -/
+
+def sortedB (l : List Rat) : Bool := (l.zip l.tail).all fun p => decide (p.1 ≤ p.2)
+
+/-- **table_consistent** (whole regenerated tables, kernel decision): `SYM_DURS[i]` lasts `DURS[i]` quarters;
+    every straight value is the label's duration; every composite row sums to its `COMPOSITE_DURS` entry up to
+    the binary64 rounding of that entry (2⁻⁵⁰); the three numeric tables are sorted (as `find_nearest` /
+    `searchsorted` assume) -/
+theorem table_consistent :
+    (DURS.length = SYM_DURS.length ∧
+      ∀ (i : Nat) (d : Rat) (sd : SymDur), DURS[i]? = some d → SYM_DURS[i]? = some sd → symbolicToNumeric sd 1 = some d) ∧
+    (STRAIGHT_DURS.length = SYM_STRAIGHT_DURS.length ∧
+      ∀ (k : Nat) (s : Rat) (ss : SymDur), STRAIGHT_DURS[k]? = some s → SYM_STRAIGHT_DURS[k]? = some ss → lookup ss.1 LABEL_DURS = some s) ∧
+    (COMPOSITE_DURS.length = SYM_COMPOSITE_DURS.length ∧
+      ∀ (j : Nat) (cf : Rat) (sc : List SymDur), COMPOSITE_DURS[j]? = some cf → SYM_COMPOSITE_DURS[j]? = some sc →
+        ∃ c, numericSum sc 1 = some c ∧ |c - cf| ≤ 1 / 1125899906842624) ∧
+    (sortedB DURS = true ∧ sortedB STRAIGHT_DURS = true ∧ sortedB COMPOSITE_DURS = true) :=
+  ⟨⟨C11Dur.dur_rows.1, fun i d sd hd hs => (C11Dur.dur_row i d sd hd hs).1⟩,
+   ⟨C11Dur.straight_rows.1, fun k s ss hd hs => (C11Dur.straight_row k s ss hd hs).1⟩,
+   ⟨C11Dur.comp_rows.1, fun j cf sc hd hs =>
+      let ⟨c, h1, h2, _⟩ := C11Dur.comp_row j cf sc hd hs; ⟨c, h1, h2⟩⟩,
+   by decide +kernel⟩
+
+/-! ### estimating and converting back -/
+
+/-- **estimate_back**: for every integer duration and every divisions value, whatever single symbolic
+    duration the (repaired) estimator answers lasts exactly the duration it was given -/
+theorem estimate_back (dur div : Nat) (com : Bool) (sd : SymDur)
+    (h : estimate (dur : Rat) div com = some (.single sd)) : symbolicToNumeric sd div = some (dur : Rat) :=
+  C11Dur.estimate_back' dur div com sd h
+
+/-- with `return_com_durations=True` the tied values of a composite answer add up to the duration
+    (divisions up to 2⁴⁰: the composite table holds binary64 values) -/
+theorem estimate_back_composite (dur div : Nat) (hdiv : 0 < div) (hbig : div ≤ 1099511627776) (com : Bool)
+    (l : List SymDur) (h : estimate (dur : Rat) div com = some (.composite l)) : numericSum l div = some (dur : Rat) :=
+  C11Dur.composite_back dur div hdiv hbig com l h
+
+/-- the estimator always answers on integers: a value, a composite, or `{}` = "no single notated value"
+    (the fuel of the tuplet guess suffices) -/
+theorem estimate_total (dur div : Nat) (hdiv : 0 < div) (com : Bool) : ∃ e, estimate (dur : Rat) div com = some e :=
+  C11Dur.estimate_total' dur div hdiv com
+
+/-- without `return_com_durations` the answer is `{}` or a single value -/
+theorem estimate_shape (dur : Rat) (div : Nat) (e : Est) (h : estimate dur div false = some e) :
+    e = .empty ∨ ∃ sd, e = .single sd :=
+  C11Dur.estimate_false_shape dur div e h
+
+-- non-vacuity: a dotted quarter from the table, a triplet from the tuplet guess, a composite, no value
+example : estimate 6 4 false = some (.single ("quarter", 1, none, none)) := by decide +kernel
+example : estimate 4 6 false = some (.single ("quarter", 0, some 3, some 2)) := by decide +kernel
+example : estimate 34 16 true = some (.composite [("half", 0, none, none), ("32nd", 0, none, none)]) := by decide +kernel
+example : estimate 34 16 false = some .empty ∧ estimate 81 16 false = some .empty := by decide +kernel
+
+/-- the defects repaired by C11-1 / C11-2, on the unrepaired matching rule in exact arithmetic:
+    22 divisions at 960 per quarter were called a dotted 256th (which lasts 22.5), one division at 17 per quarter
+    a triple-dotted 128th, and 1001 divisions at 251 per quarter a 336:334 tuplet of wholes -/
+example : estimateOld 22 960 = some (.single ("256th", 1, none, none)) ∧
+    symbolicToNumeric ("256th", 1, none, none) 960 = some (45 / 2) := by decide +kernel
+example : estimateOld 1 17 = some (.single ("128th", 3, none, none)) ∧
+    symbolicToNumeric ("128th", 3, none, none) 17 ≠ some 1 := by decide +kernel
+example : estimateOld 1001 251 = some (.single ("whole", 0, some 336, some 334)) ∧
+    symbolicToNumeric ("whole", 0, some 336, some 334) 251 ≠ some 1001 := by decide +kernel
+-- the repaired rule on the same inputs
+example : estimate 22 960 false = some (.single ("128th", 0, some 15, some 11)) ∧
+    symbolicToNumeric ("128th", 0, some 15, some 11) 960 = some 22 := by decide +kernel
+
+/-! ### the split search -/
+
+/-- **split_sound**: for all start, end, divisions, split limits and fuel — an answer of `find_tie_split` tiles
+    `[start, end)` with at most `max_splits + 1` (four, as `tie_notes` calls it) non-empty parts, each carrying
+    one symbolic value that lasts exactly the part -/
+theorem split_sound (start stop divs maxSplits fuel : Nat) (parts : List Piece)
+    (h : findTieSplit start stop divs maxSplits fuel = .found parts) :
+    C11Split.Tiles start stop parts ∧ parts ≠ [] ∧ parts.length ≤ maxSplits + 1 ∧
+    ∀ p ∈ parts, ∃ sd, p.2.2 = .single sd ∧ symbolicToNumeric sd divs = some ((p.2.1 - p.1 : Nat) : Rat) :=
+  C11Split.split_sound' start stop divs maxSplits fuel parts h
+
+example : ∃ parts, findTieSplit 0 5 1 3 100 = .found parts ∧ parts.length = 2 :=
+  ⟨[(0, 4, .single ("whole", 0, none, none)), (4, 5, .single ("quarter", 0, none, none))], by decide +kernel⟩
+
+/-! ### adding measures -/
+
+/-- **measures_tile**: for every bar-end map that answers later integer positions on integer positions, every
+    part whose signatures are in time order inside a non-empty timeline and whose existing measures are in time
+    order, non-empty, disjoint, inside the timeline and not straddling a signature change: after `add_measures`
+    the measures are pairwise disjoint (in time order), non-empty, cover `[first, last)`, and the old ones are
+    still there with their extents -/
+theorem measures_tile (f : Rat → Nat → Option Rat) (hf : C11Meas.Integral f) (p : PartM) (fuel : Nat)
+    (l : List (Nat × Nat × Nat)) (ms' : List Measure) (hok : C11Meas.TsOK p) (hl : stretches p = some l)
+    (hex : C11Meas.ExistingOK p l) (h : addMeasuresWith f p fuel = .ok ms') :
+    ms'.Pairwise (fun m m' => m.stop ≤ m'.start) ∧
+    (∀ m ∈ ms', p.first ≤ m.start ∧ m.stop ≤ p.last) ∧
+    (∀ t, p.first ≤ t → t < p.last → ∃ m ∈ ms', m.start ≤ t ∧ t < m.stop) ∧
+    (p.measures.map C11Meas.ext).Sublist (ms'.map C11Meas.ext) := by
+  obtain ⟨htn, hsub⟩ := C11Meas.add_measures_sound' f hf p fuel l ms' hok hl hex h
+  obtain ⟨d1, d2⟩ := C11Meas.tn_disjoint _ _ _ _ _ htn
+  exact ⟨d1, d2, C11Meas.tn_cover _ _ _ _ _ htn, hsub⟩
+
+/-- **numbers_consecutive**: under the same hypotheses the measures, in time order, are numbered 1, 2, …, n -/
+theorem numbers_consecutive (f : Rat → Nat → Option Rat) (hf : C11Meas.Integral f) (p : PartM) (fuel : Nat)
+    (l : List (Nat × Nat × Nat)) (ms' : List Measure) (hok : C11Meas.TsOK p) (hl : stretches p = some l)
+    (hex : C11Meas.ExistingOK p l) (h : addMeasuresWith f p fuel = .ok ms') :
+    ∀ (i : Nat) (hi : i < ms'.length), (ms'[i]).number = some (1 + (i : Int)) :=
+  (C11Meas.tn_numbers _ _ _ _ _ (C11Meas.add_measures_sound' f hf p fuel l ms' hok hl hex h).1).1
+
+/-- `add_measures` is that loop over C02's beat maps -/
+theorem addMeasures_eq (p : PartM) (fuel : Nat) : addMeasures p fuel = addMeasuresWith (barEnd p) p fuel := rfl
+
+/-- a part without time signature, or with an empty timeline, is left alone -/
+theorem addMeasures_noop (f : Rat → Nat → Option Rat) (p : PartM) (fuel : Nat)
+    (h : p.ts = [] ∨ p.first = p.last) : addMeasuresWith f p fuel = .ok p.measures := by
+  unfold addMeasuresWith
+  rcases h with h | h
+  · simp [h]
+  · simp [h]
+
+-- non-vacuity: bars of 4 over [0, 10) in two stretches, one existing measure [5, 7) numbered 9
+def exF : Rat → Nat → Option Rat := fun pos beats => some (pos + (beats : Rat))
+def exPart : PartM :=
+  { first := 0, last := 10, npoints := 5, qd := [(0, 1)], ts := [⟨0, 4, 4, 4⟩, ⟨7, 2, 4, 2⟩],
+    measures := [⟨5, 7, some 9⟩] }
+
+example : stretches exPart = some [(0, 7, 4), (7, 10, 2)] ∧
+    addMeasuresWith exF exPart 50 =
+      .ok [⟨0, 4, some 1⟩, ⟨4, 5, some 2⟩, ⟨5, 7, some 3⟩, ⟨7, 9, some 4⟩, ⟨9, 10, some 5⟩] := by
+  decide +kernel
+
+example : C11Meas.TsOK exPart := ⟨by decide, by decide, by decide, by decide⟩
+example : C11Meas.ExistingOK exPart [(0, 7, 4), (7, 10, 2)] :=
+  ⟨(C11Meas.td_cons ..).mpr ⟨by decide, by decide, trivial⟩, by decide, by decide⟩
+
+/-! ### tying notes -/
+
+/-- **tie_sound_same**: the chain that `tie_notes` puts in place of a note cut at the following measure starts
+    (any list of measure starts) sounds the same — onset, summed duration, pitch, voice — and is a well-formed
+    tie chain: contiguous, linked both ways, of one pitch/voice/staff, keeping the note's identity and back
+    link at its head and handing the forward tie and the stopping slurs to its last member.
+    By induction over the split list; `ps` may be any tiling of the note (also the one `split_note` gets). -/
+theorem tie_sound_same (orig : Note) (base : Nat) (ps : List (Nat × Nat × Option Est)) (hne : ps ≠ [])
+    (ht : C11Tie.PTiles orig.start orig.stop ps) :
+    C11Tie.chainRow (mkChain orig base ps) = some (C11Tie.noteRow orig) ∧
+    C11Tie.ChainSpec orig orig.start orig.stop orig.tiePrev orig.key orig.id ps (mkChain orig base ps) :=
+  C11Tie.mkChain_sound orig base ps hne ht
+
+/-- the pieces stage 1 of `tie_notes` uses do tile the note, for every list of measure starts -/
+theorem tie_pieces_tile (f : Nat × Nat → Option Est) (ms : List Nat) (start stop : Nat) (h : start < stop) :
+    C11Tie.PTiles start stop ((pieceBounds start stop (cutPoints start stop ms)).map fun b => (b.1, b.2, f b)) :=
+  C11Tie.cutPoints_tiles f ms start stop h
+
+/-- **every pitched note lies within one measure**: with the measure starts in time order no measure starts
+    strictly inside a piece -/
+theorem pieces_within_measures (ms : List Nat) (start stop : Nat) (hs : ms.Pairwise (· ≤ ·)) :
+    ∀ b ∈ pieceBounds start stop (cutPoints start stop ms), ∀ m ∈ ms, ¬ (b.1 < m ∧ m < b.2) :=
+  C11Tie.cutPoints_no_inner ms start stop hs
+
+/-- **symdur_assigned**: a symbolic duration `tie_notes` stores on a piece lasts exactly the piece -/
+theorem symdur_assigned (dur div : Nat) (sd : SymDur) (h : estimateI dur div = .single sd) :
+    symbolicToNumeric sd div = some (dur : Rat) := by
+  unfold estimateI at h
+  split at h
+  · rename_i e he
+    subst h
+    exact estimate_back dur div false sd he
+  · cases h
+
+/-- stage 2 of `tie_notes` never fires: `symbolic_duration` is never `None` for a note in a part, because
+    `estimate_symbolic_duration` answers `{}` where it used to answer `None` (reported, not repaired) -/
+theorem stage2_dead (qd : List (Int × Nat)) (ns : List Note) : tieStage2 qd ns = ns := by
+  have h1 : ∀ (ns : List Note) (k : Nat), tieTwo qd ns k = ns := by
+    intro ns k
+    unfold tieTwo
+    split
+    · rfl
+    · have : ∀ n : Note, (symbolicDuration qd n).isNone = false := by
+        intro n; unfold symbolicDuration; split <;> rfl
+      simp [this]
+  unfold tieStage2
+  generalize ns.map (·.key) = ks
+  induction ks generalizing ns with
+  | nil => rfl
+  | cons k ks ih => rw [List.foldl_cons, h1]; exact ih ns
+
+/-- for the same reason `find_tuplets` finds no candidate group and changes nothing -/
+theorem tuplet_candidates_empty (qd : List (Int × Nat)) (ns : List Note) : tupletCandidates qd ns = [] := by
+  unfold tupletCandidates
+  have : ∀ n : Note, (symbolicDuration qd n).isNone = false := by
+    intro n; unfold symbolicDuration; split <;> rfl
+  simp only [this]
+  induction ns with
+  | nil => rfl
+  | cons n ns ih => simpa using ih
+
+-- non-vacuity: a note [0, 10) cut at the measure starts 4 and 8
+example : cutPoints 0 10 [0, 4, 8, 12] = [4, 8] ∧ pieceBounds 0 10 [4, 8] = [(0, 4), (4, 8), (8, 10)] := by decide
 
 end C11
